@@ -1,7 +1,7 @@
 SPECIFICATION TSpec
 CONSTANTS
   KeyByOpts = TRUE
-  Kinds = {"good", "noname", "badlabel", "badglyph", "compressed", "awami", "badsilf", "nocmap", "nogloc", "name1", "badfeat", "badfeat2", "badsill", "underflow", "emptyname", "emptyglyf"}
+  Kinds = {"good", "noname", "badlabel", "badglyph", "compressed", "awami", "badsilf", "nocmap", "nogloc", "name1", "badfeat", "badfeat2", "badsill", "underflow", "emptyname", "emptyglyf", "fmt12", "charisfast"}
   OptSet = {0, 1, 2, 3, 4, 5, 6, 7}
   Srcs = {"ops", "file", "opsnr", "opsc"}
   Texts = {0, 1, 2, 3, 4, 5, 6, 7}
